@@ -339,6 +339,7 @@ def pty_session(year, forms, path, answer_fn, fault=None, timeout=1200):
     n = 0
     t0 = time.time()
     status = None
+    fault_sent = []
     try:
         while True:
             if time.time() - t0 > timeout:
@@ -360,6 +361,11 @@ def pty_session(year, forms, path, answer_fn, fault=None, timeout=1200):
                     status = os.waitstatus_to_exitcode(done[1])
                     pid = None
                     break
+                # the key stroke can be swallowed while the child is (re)configuring the terminal:
+                # a user would simply press it again
+                if fault_sent and time.time() - fault_sent[0] > 3.0 and len(fault_sent) < 8:
+                    os.write(fd, b'\x03' if fault[0] == 'sigint' else b'\x04')
+                    fault_sent.insert(0, time.time())
                 continue
             text = buf.decode('utf-8', 'replace')
             if text.rstrip(' ').endswith('(Ctrl-C to abort):') or text.rstrip(' ').endswith('try again?:'):
@@ -370,6 +376,7 @@ def pty_session(year, forms, path, answer_fn, fault=None, timeout=1200):
                 buf = b''
                 if fault and n == fault[1]:
                     os.write(fd, b'\x03' if fault[0] == 'sigint' else b'\x04')
+                    fault_sent.insert(0, time.time())
                     continue
                 ans = answer_fn(name)
                 given.append((name, ans))
